@@ -47,7 +47,7 @@ ASSUMPTIONS = [
     "inputs avoid the value classes owned by C01 known findings (IPv6 below 2**32, scoped addresses, dynamic holding a path); a case whose "
     "source bytes do not decode (independent codec) to the records written is skipped and counted",
     "a selector that is undefined on some record (reference evaluator, all sub-expressions eager) makes the case undefined: skipped and counted; "
-    "selectors that reach a missing field through 'not in', '!=' or 'in <non list/tuple>' are skipped (C08 known findings of the engines)",
+    "selectors that reach a missing field through 'not in', '!=', 'is', 'is not' or 'in <non list/tuple>' are skipped (C08's subject: known findings of the engines / identity tests)",
     "jsonfile output is compared only for family B (JSON-representable types; every NaN equal); plain JSON modes are compared on keys and scalar values",
     "the text form of a value is Python's str()/repr() of the value (value rendering is C20's subject); layout is modelled independently",
     "subprocess (stdout) modes use family A with ASCII override strings only (console encoding is not the subject)",
@@ -131,9 +131,9 @@ def generate(ctx):
         if ctx.mine(idx):
             yield {"k": "place", "pattern": pat, "fam": "AB"[idx % 2], "s": subseed("c16", "place", idx)}
         idx += 1
-    for i in range(ctx.scale(200, 1600)):
+    for i in range(ctx.scale(160, 1200)):
         yield {"k": "rand", "fam": "AB"[i % 2], "s": subseed("c16", ctx.seed, "rand", ctx.shard, i)}
-    for i in range(ctx.scale(27, 180)):
+    for i in range(ctx.scale(27, 150)):
         mode = SUB_MODE_CYCLE[i % len(SUB_MODE_CYCLE)]
         fam = "A" if mode in ("csv", "line", "line-verbose", "text") else ("B" if mode in ("json", "jsonlines", "list") else "AB"[(i // len(SUB_MODES)) % 2])
         yield {"k": "sub", "fam": fam, "mode": mode, "s": subseed("c16", ctx.seed, "sub", ctx.shard, i)}
